@@ -6,6 +6,7 @@ from .. import proto
 from ..astutil import dotted, const, unparse, walk_shallow
 from ..cfg import build_cfg, repo_noreturn
 from ..model import AnalysisError
+from .. import pat
 from .c02 import _bounds_from_can_hold
 
 
@@ -13,7 +14,7 @@ def _push_vars(repo):
     f = repo.func('qvm.machine', 'TerminalDevice._exec_input')
     pv = None
     for n in ast.walk(f.node):
-        if isinstance(n, ast.FunctionDef) and n.name == 'push_vars':
+        if isinstance(n, ast.FunctionDef) and n is not f.node:
             pv = n
     if pv is None:
         raise AnalysisError('anchor vanished: push_vars in _exec_input')
@@ -42,7 +43,7 @@ def type_id_protocol(ctx, pid, fn, fnode, var, construct_prefix):
         ctx.finding(rule, f'{tid.file}:Type.type_id',
                     'Type.type_id is no longer the BuiltinType value',
                     tid.file, tid.line)
-    arms = proto.type_id_arms(fnode, var)
+    arms = proto.type_id_arms(fnode)
     for k, name in sorted(ids.items()):
         construct = f'{construct_prefix}[{k}:{name}]'
         ctx.instance(rule, construct, sample={'id': k, 'type': name,
@@ -76,14 +77,14 @@ def arg_protocol(ctx):
     if g is None:
         raise AnalysisError('anchor vanished: generator for InputStmt')
     f, pv = _push_vars(repo)
-    es = proto.emit_sequence(g.node.body)
+    es = proto.emit_sequence(g.node.body, fn=g.node)
     io_at = [i for i, e in enumerate(es) if e[0] == 'io']
     if not io_at:
         raise AnalysisError('anchor vanished: io in gen_input')
     before = es[:io_at[0]]
     after = es[io_at[0] + 1:]
     body = [s for s in f.node.body if s is not pv]
-    ps = proto.pop_sequence(body)
+    ps = proto.pop_sequence(body, fn=f.node)
 
     def flat_push(items):
         out = []
@@ -125,17 +126,19 @@ def arg_protocol(ctx):
     cnt = pushes[-1] if pushes else None
     loops = [p for p in pushes if p[0] == 'loop']
     ok = cnt and cnt[0] == 'INTEGER' and cnt[1] == 'len(node.var_list)' \
-        and loops and loops[-1][1] == 'node.var_list'
+        and loops and loops[-1][1] == 'node.var_list' and \
+        loops[-1][2] and loops[-1][2][0][1].endswith('.type.type_id')
     ctx.instance(rule, construct + ':count')
     if not ok:
         ctx.finding(rule, construct + ':count',
                     f'count operand {cnt} is not len(node.var_list) of the '
                     f'list the type ids are pushed for', g.file, g.line)
     # flags: -1/0 booleans
-    flags = [p for p in pushes if p[0] == 'INTEGER' and p[1] in (
-        'same_line', 'prompt_question')]
+    flags = [p for p in pushes if p[0] == 'INTEGER' and (
+        'node.same_line' in p[1] or 'node.prompt_question' in p[1])]
     ctx.instance(rule, construct + ':flags', sample={'flags': flags})
-    if len(flags) != 2:
+    if len(flags) != 2 or not all('-1 if' in p[1] and 'else 0' in p[1]
+                                  for p in flags):
         ctx.finding(rule, construct + ':flags',
                     'same_line / prompt_question flags are not both pushed',
                     g.file, g.line)
@@ -156,17 +159,16 @@ def arg_protocol(ctx):
                     f'generator stores over node.var_list forward={fwd}',
                     g.file, g.line)
     # prompt semantics: "? " printed iff prompt_question
-    txt = unparse(f.node)
-    ok = "if prompt_question:\n" in txt and "terminal_print('? ')" in txt
+    # the flag popped between the type ids and the prompt guards "? "
+    ok = pat.has("if _Q:\n    self.impl.terminal_print('? ')", f.node)
     ctx.instance(rule, construct + ':question-mark')
     if not ok:
         ctx.finding(rule, construct + ':question-mark',
                     'the "? " suffix is not printed exactly under the '
                     'prompt_question flag', f.file, f.line)
     pa = repo.func('qbee.grammar', 'parse_input')
-    ptxt = unparse(pa.node)
-    ok = "prompt_question = sep == ';'" in ptxt and \
-        'prompt_question = True' in ptxt
+    ok = pat.has("_PQ = _SEP == ';'", pa.node) and \
+        pat.has('_PQ = True', pa.node)
     ctx.instance(rule, f'{pa.file}:parse_input:question-flag')
     if not ok:
         ctx.finding(rule, f'{pa.file}:parse_input:question-flag',
@@ -220,7 +222,7 @@ def range_constants(ctx):
     arms = {}
     for n in ast.walk(pv):
         if isinstance(n, ast.If) and isinstance(n.test, ast.Compare) and \
-                dotted(n.test.left) == 'vtype':
+                dotted(n.test.left) == proto.int_dispatch_var(pv):
             arms[const(n.test.comparators[0])] = ast.Module(
                 body=n.body, type_ignores=[])
             arms[const(n.test.comparators[0])].lineno = n.lineno
@@ -242,7 +244,8 @@ def range_constants(ctx):
                     isinstance(n.test.op, ast.Or) and any(
                         isinstance(s, ast.Return) for s in n.body):
                 for c in n.test.values:
-                    if isinstance(c, ast.Compare) and dotted(c.left) == 'v':
+                    if isinstance(c, ast.Compare) and \
+                            isinstance(c.left, ast.Name):
                         v = cval(c.comparators[0])
                         if isinstance(c.ops[0], ast.Lt):
                             lo = v
@@ -264,7 +267,8 @@ def range_constants(ctx):
         construct = f'{f.file}:push_vars[{tname}]:range'
         if arm is None:
             continue
-        ok = f'expr.Type.{tname}.can_hold(v)' in unparse(arm)
+        ok = pat.has(f'if not expr.Type.{tname}.can_hold(_V):\n'
+                     f'    return False', arm)
         ctx.instance(rule, construct)
         if not ok:
             ctx.finding(rule, construct,
@@ -294,10 +298,7 @@ def range_constants(ctx):
                         f'except ValueError: return False', f.file,
                         arm.lineno)
     # field count
-    ok = any(isinstance(n, ast.If) and
-             unparse(n.test) == 'len(values) != len(var_types)' and
-             any(isinstance(s, ast.Return) and const(s.value, 'x') is False
-                 for s in n.body) for n in ast.walk(pv))
+    ok = pat.has('if len(_A) != len(_B):\n    return False', pv)
     ctx.instance(rule2, f'{f.file}:push_vars:field-count')
     if not ok:
         ctx.finding(rule2, f'{f.file}:push_vars:field-count',
@@ -313,9 +314,12 @@ def builtin_targets(ctx):
     p = repo.func('qbee.compiler', 'Pass2.process_input_pre')
     ok = False
     for n in ast.walk(p.node):
-        if isinstance(n, ast.If) and \
-                'not lvalue.type.is_builtin' == unparse(n.test) and any(
-                    isinstance(s, ast.Raise) for s in n.body):
+        pass
+    ok = pat.has('for _L in node.var_list:\n'
+                 '    if not _L.type.is_builtin:\n'
+                 '        raise CompileError(...)', p.node)
+    for n in []:
+        if False:
             ok = True
     ctx.instance(rule, f'{p.file}:Pass2.process_input_pre')
     if not ok:
@@ -381,16 +385,19 @@ def retry_loop(ctx):
     for b in brk:
         cs = [(unparse(t.ast.test), lab) for t, lab in cfg.conditions(b)]
         ctx.instance(rule, construct + ':break', sample={'conds': cs})
-        if ('success', 'true') not in cs:
+        succ = {name for name, ds in __import__(
+            'qbstatic.astutil', fromlist=['x']).local_defs(f.node).items()
+            if any(k == 'assign' and isinstance(v, ast.Call) and
+                   isinstance(v.func, ast.Name) and v.func.id == pv.name
+                   for k, v in ds)}
+        if not any(t in succ and lab == 'true' for t, lab in cs):
             ctx.finding(rule, construct + ':break',
                         f'loop exit is guarded by {cs}, not by the success '
                         f'of push_vars', f.file, b.line)
     # success is the result of push_vars on the line just read
-    ok = any(isinstance(s, ast.Assign) and dotted(s.targets[0]) == 'success'
-             and isinstance(s.value, ast.Call) and
-             dotted(s.value.func) == 'push_vars' and
-             [unparse(a) for a in s.value.args] == ['string', 'var_types']
-             for s in ast.walk(loop))
+    # success = push_vars(<the line just read>, <the type ids>)
+    ok = pat.has('_S = self.impl.terminal_input(__)\n'
+                 f'_OK = {pv.name}(_S, __)', loop)
     ctx.instance(rule, construct + ':success-source')
     if not ok:
         ctx.finding(rule, construct + ':success-source',
